@@ -136,9 +136,11 @@ func Verif_C11_admission() {
 	verifapi.Assert("no-lock-left-held", verifapi.HeldLocks() == 0)
 }
 
-// Verif_C11_eviction: after a correct handshake from B (cost 1) any second routing update:
-// a different forwarder, B no longer listing us (after having listed us), or a different cost
-// => disconnected with a reject; otherwise the connection stays.
+// Verif_C11_eviction: after a correct handshake from B (cost 1), optionally followed by a regular
+// update of B that lists us (so B has "listed us" once), any further routing update:
+// a different forwarder, B no longer listing us after having listed us, or a different cost
+// => disconnected with a reject; otherwise the connection stays (unless the update tells us that we
+// are a duplicate node, which shuts the whole node down - that is C11's duplicate-id rule).
 func Verif_C11_eviction() {
 	verifapi.SelectFork(false)
 	n := verifNetceptor("A")
@@ -155,11 +157,19 @@ func Verif_C11_eviction() {
 	if listed {
 		second.Connections["A"] = cost
 	}
-	run := verifStartProtocol(n, [][]byte{verifHandshake("B", 1), append([]byte{MsgTypeRoute}, verifapi.JSON(second)...)},
-		&BackendInfo{connectionCost: 1})
+	script := [][]byte{verifHandshake("B", 1)}
+	listedBefore := verifapi.Bool()
+	if listedBefore {
+		mid := &routingUpdate{NodeID: "B", UpdateID: "u1", UpdateEpoch: 5, UpdateSequence: 2,
+			Connections: map[string]float64{"A": 1}, ForwardingNode: "B"}
+		script = append(script, append([]byte{MsgTypeRoute}, verifapi.JSON(mid)...))
+	}
+	script = append(script, append([]byte{MsgTypeRoute}, verifapi.JSON(second)...))
+	run := verifStartProtocol(n, script, &BackendInfo{connectionCost: 1})
 	verifapi.Quiesce()
 	_, connected := s.connections["B"]
-	evict := second.ForwardingNode != "B" || (second.NodeID == "B" && (!listed || cost != 1))
+	evict := second.ForwardingNode != "B" || (second.NodeID == "B" && ((!listed && listedBefore) || (listed && cost != 1)))
+	weAreDuplicate := second.ForwardingNode == "B" && second.NodeID == "A" && second.UpdateEpoch != s.epoch && second.SuspectedDuplicate == s.epoch
 	if evict {
 		verifapi.Cover("evicted")
 		verifapi.Assert("misbehaving-peer-disconnected", !connected)
@@ -172,10 +182,14 @@ func Verif_C11_eviction() {
 		default:
 			verifapi.Assert("evicting-session-returns", false)
 		}
+	} else if weAreDuplicate {
+		verifapi.Cover("told-we-are-the-duplicate")
+		verifapi.Assert("duplicate-node-shuts-down", s.context.Err() != nil)
 	} else {
 		verifapi.Cover("kept")
 		verifapi.Assert("wellbehaved-peer-stays", connected)
 		verifapi.Assert("wellbehaved-peer-no-reject", !verifRejected(*run.sess.sent))
+		verifapi.Assert("node-keeps-running", s.context.Err() == nil)
 	}
 	close(run.sess.gate)
 	verifapi.Quiesce()
@@ -184,15 +198,55 @@ func Verif_C11_eviction() {
 	verifapi.Assert("no-lock-left-held", verifapi.HeldLocks() == 0)
 }
 
+// Verif_C11_cancel_parked: the establishment sequence is parked at one of its blocking points (the
+// tick runner is busy, so the flood request or the table request is not taken) when the backend
+// context is cancelled (reload, shutdown, peer drop). Whatever the point, the session returns and
+// leaves neither a connection entry nor a route for the peer. Deterministic, so it replays natively.
+func Verif_C11_cancel_parked() {
+	verifapi.SelectFork(false)
+	n := verifNetceptor("A")
+	s := n.s
+	stage := verifapi.Choose(3)
+	switch stage {
+	case 0: // flood request not served
+		s.sendRouteFloodChan = make(chan time.Duration)
+	case 1: // table request not served
+		s.updateRoutingTableChan = make(chan time.Duration)
+	case 2: // everything served: cancelled after establishment
+	}
+	run := verifStartProtocol(n, [][]byte{verifHandshake("B", 1)}, &BackendInfo{connectionCost: 1})
+	verifapi.Quiesce()
+	_, registered := s.connections["B"]
+	verifapi.Assert("peer-registered-while-establishing", registered)
+	run.stop()
+	verifapi.Quiesce()
+	select {
+	case <-run.done:
+		verifapi.Cover("session-returned")
+	default:
+		verifapi.Assert("session-returns-after-cancel", false)
+	}
+	_, left := s.connections["B"]
+	verifapi.Known("cancel-while-table-request-pending", stage == 1)
+	verifapi.Assert("cancelled-session-leaves-no-connection", !left)
+	_, r1 := s.knownConnectionCosts["A"]["B"]
+	_, r2 := s.knownConnectionCosts["B"]["A"]
+	verifapi.Assert("cancelled-session-leaves-no-route", verifapi.All(!r1, !r2))
+	close(run.sess.gate)
+	verifapi.Quiesce()
+	verifapi.Assert("no-lock-left-held", verifapi.HeldLocks() == 0)
+}
+
 // Verif_C11_cancel_during_establishment: the backend context is cancelled (reload, shutdown, peer
 // drop) at ANY point of the establishment sequence - every select that can take the cancellation
 // branch does so on some path. Whatever the point, no entry for the peer is left behind.
 func Verif_C11_cancel_during_establishment() {
-	verifapi.ExploreSchedules(1)
 	n := verifNetceptor("A")
 	s := n.s
+	verifapi.Quiesce()
+	verifapi.ExploreSchedules(1)
 	run := verifStartProtocol(n, [][]byte{verifHandshake("B", 1)}, &BackendInfo{connectionCost: 1})
-	go run.stop()
+	verifapi.GoLow(run.stop)
 	verifapi.Quiesce()
 	close(run.sess.gate)
 	verifapi.Quiesce()
